@@ -32,7 +32,7 @@ META = {
              'assignment).'),
     'assumptions': [
         'M comparisons are generated between mutually comparable values only',
-        'Check validators are total predicates returning real booleans; defaults are opaque sentinels',
+        'Check validators are total; besides real booleans they return other falsy values (None, 0, empty string), which pass: a validator fails a Check by returning False or raising; defaults are opaque sentinels',
         'a rejection decided by a failing T access inside a combinator is any GlomError, otherwise MatchError',
     ],
 }
@@ -417,6 +417,14 @@ def is_short(x):
     return not hasattr(x, '__len__') or len(x) < 2
 
 
+def falsy_unless_false(x):
+    return ('' if isinstance(x, str) else 0 if isinstance(x, (int, float)) else None) if is_short(x) else False
+
+
+def returns_none(x):
+    return None
+
+
 def _in(t, choices):
     """the `in` of the reference: == against each choice (never hashing)"""
     return any(t is c or t == c for c in choices)
@@ -428,7 +436,9 @@ def check_cases(col):
     insts = [None, int, (int, float), str, object]
     vals = [None, ('equal_to', 1), ('equal_to', 'a'), ('one_of', (1, 2)), ('one_of', ['a', 'ab']), ('equal_to', None),
             ('equal_to', [1]), ('one_of', ([1], {'a': 1}))]
-    validators = [None, pos, [pos, is_short], is_short]
+    # (falsy_unless_false / returns_none: a validator fails the Check by returning False or by raising - a result that is merely
+    # falsy, like the None of an assertion-style validator, the 0 of validate=int or an empty string, passes)
+    validators = [None, pos, [pos, is_short], is_short, falsy_unless_false, [returns_none, pos]]
     defaults = [None, SENT]
     specs = [None, T['x']]
     n = 0
